@@ -9,6 +9,7 @@ EXPLANATION = (
     " C06.2 additionally decides that the tombstone sets of MemTable / L0Run only grow (insert / extend) or are moved whole into the frozen run: a run's tombstone is what hides older copies of the key."
     " C06.2 also covers the blocked sets a neighbour iterator accumulates (no whole-set assignment). C06.3: MemTable.out is keyed by the edge's source and MemTable.in_ by its destination in every access, and freeze_into_run fills edges_by_src / edges_by_dst from the matching map."
     " C06.4: the whole-map property overlays (merge_node/edge_properties_from_runs) resolve each key at the newest run that mentions it: one resolved-set receives both the removed keys and the set keys inside the loop over runs, every addition to the merged map happens only after that set accepted the key, and the merged map is not edited after the loop (a removal recorded by an older run must not erase a newer value)."
+    " C06.5: a bucket cursor over a CSR offsets table that is advanced while edges are swept is advanced in a loop of its own (empty buckets exist wherever a node has no outgoing relationship)."
 )
 
 S = "nervusdb_storage::"
@@ -139,6 +140,7 @@ def run(ctx):
 
     keyed_by_rule(ctx, "C06.3")
     overlay_resolution_rule(ctx)
+    catch_up_cursor_rule(ctx)
 
 
 def keyed_by_rule(ctx, rid):
@@ -307,3 +309,112 @@ def overlay_resolution_rule(ctx, rid="C06.4"):
                        "receives the removed keys: a key removed by a newer run is resurrected from an older one, or an older removal is applied to a newer value" % short, c.loc())
         ctx.oblige(bool(removed_src), rid, "%s:%s:removed-keys" % (rid, short), "%s never records a run's removed keys as resolved" % short, b.file)
     ctx.floor(rid, "merged-map mutation sites", n, 2)
+
+
+CSR = "nervusdb_storage::csr::"
+
+
+def catch_up_cursor_rule(ctx, rid="C06.5"):
+    """a cursor that follows a per-source offsets table while edges are swept catches up in a loop (sources without edges leave empty buckets)"""
+    from ..facts import op_local, op_const
+    from ..mirutil import value_root, switch_on
+    from .c26 import bslice
+    F = ctx.facts
+    ctx.rule(rid, "in the CSR segment code, a bucket cursor that is advanced while edges are swept (incremented under a test against the offsets table) is "
+             "advanced in a loop of its own: with `if` instead of `while` it moves one bucket per edge, a source without edges makes it lag and the next "
+             "edge is attributed to the wrong node (the reverse index then answers incoming reads wrongly)")
+    n = 0
+    for i, b in sorted(F.bodies.items()):
+        if not i.startswith(CSR) or "::tests::" in i:
+            continue
+        # outer sweep loops: iterator `next` calls
+        nexts = [c.bb for c in b.calls() if c.declared == "core::iter::traits::iterator::Iterator::next"]
+        if not nexts:
+            continue
+        for bi, blk in enumerate(b.blocks):
+            if b.is_cleanup(bi):
+                continue
+            for st in blk["s"]:
+                # X = (X + 1).0
+                if st[0] != "a" or st[1][1] or st[2][0] != "use" or st[2][1][0] not in ("c", "m") or not st[2][1][1][1]:
+                    continue
+                x = st[1][0]
+                sd = b.single_def(st[2][1][1][0])
+                rv = sd[3][2] if sd and sd[2] == "assign" else None
+                if not (rv and rv[0] == "bin" and rv[1] == "AddWithOverflow" and op_local(rv[2]) is not None and value_root(b, op_local(rv[2])) == x
+                        and op_const(rv[3]) is not None and op_const(rv[3]).get("v") == 1):
+                    continue
+                if b.local_ty(x) not in ("usize", "u32", "u64"):
+                    continue
+                # guarded by a test that reads the offsets table at an index derived from x
+                guard = None
+                for cb in range(len(b.blocks)):
+                    sw = switch_on(b, cb)
+                    if not sw or not b.dominates(cb, bi) or cb == bi:
+                        continue
+                    ls, cs = bslice(b, sw[0], depth=10)
+                    reads_table = any(c.declared == "core::ops::index::Index::index" for c in cs) or any(
+                        isinstance(p, list) and p[0] == "i" for l in ls for (_, _, k, s2) in b.defs().get(l, []) if k == "assign"
+                        for p in (s2[2][1][1][1] if s2[2][0] == "use" and s2[2][1][0] in ("c", "m") else []))
+                    if x in ls and reads_table:
+                        guard = cb
+                if guard is None:
+                    continue
+                # which sweep loop is it in?
+                outer = [h for h in nexts if h in b.reachable([bi]) and bi in b.reachable([h])]
+                if not outer:
+                    continue
+                n += 1
+                own_loop = bi in b.reachable(list(b.succs(bi)), avoid=set(outer))
+                ctx.instance(rid, "%s: cursor _%d (%s) advanced at line %d inside a sweep, own catch-up loop=%s" % (i.split("::")[-1], x, b.local_name(x), b.line_of_block(bi), own_loop))
+                ctx.oblige(own_loop, rid, "%s:%s:cursor:%s:single-step" % (rid, i.split("::")[-1], b.local_name(x) or x),
+                           "%s advances its bucket cursor at most once per swept edge (`if`, not `while`): a bucket without edges — a node with no "
+                           "outgoing relationship between two sources — makes the cursor lag and the following edges are attributed to the wrong source" % i.split("::")[-1],
+                           "%s:%d" % (b.file, b.line_of_block(bi)))
+    # the same cursor captured by a per-element closure (`.map(|(idx, e)| { if idx >= offsets[cur + 1] { cur += 1 } .. })`)
+    def env_field(b, l):
+        sd = b.single_def(l)
+        if sd and sd[2] == "assign" and sd[3][2][0] == "use" and sd[3][2][1][0] in ("c", "m"):
+            pl = sd[3][2][1][1]
+            if pl[0] == 1 and any(isinstance(p, list) and p[0] == "f" for p in pl[1]):
+                return [p[1] for p in pl[1] if isinstance(p, list) and p[0] == "f"][-1]
+        return None
+
+    for i, b in sorted(F.bodies.items()):
+        if not i.startswith(CSR) or b.kind != "closure" or "::tests::" in i:
+            continue
+        for bi, blk in enumerate(b.blocks):
+            if b.is_cleanup(bi):
+                continue
+            for st in blk["s"]:
+                if st[0] != "a" or st[1][1] != ["*"] or st[2][0] != "use" or st[2][1][0] not in ("c", "m") or not st[2][1][1][1]:
+                    continue
+                k = env_field(b, st[1][0])
+                if k is None:
+                    continue
+                sd = b.single_def(st[2][1][1][0])
+                rv = sd[3][2] if sd and sd[2] == "assign" else None
+                if not (rv and rv[0] == "bin" and rv[1] == "AddWithOverflow" and op_const(rv[3]) is not None and op_const(rv[3]).get("v") == 1):
+                    continue
+                src = rv[2][1] if rv[2][0] in ("c", "m") else None
+                if not (src and src[1] == ["*"] and env_field(b, src[0]) == k):
+                    continue
+                guarded = False
+                for cb in range(len(b.blocks)):
+                    sw = switch_on(b, cb)
+                    if not sw or not b.dominates(cb, bi) or cb == bi:
+                        continue
+                    ls, cs = bslice(b, sw[0], depth=12)
+                    if any(env_field(b, l) == k for l in ls) and (any(c.declared == "core::ops::index::Index::index" for c in cs) or any(
+                            isinstance(p, list) and p[0] == "i" for l in ls for (_, _, kk, s2) in b.defs().get(l, []) if kk == "assign"
+                            for p in (s2[2][1][1][1] if s2[2][0] == "use" and s2[2][1][0] in ("c", "m") else []))):
+                        guarded = True
+                if not guarded:
+                    continue
+                n += 1
+                own_loop = bi in b.reachable(list(b.succs(bi)))
+                ctx.instance(rid, "%s: captured cursor (closure field %s) advanced at line %d once per element, own catch-up loop=%s" % (i.split("::", 2)[-1], k, b.line_of_block(bi), own_loop))
+                ctx.oblige(own_loop, rid, "%s:%s:captured-cursor:%s:single-step" % (rid, (b.root or i).split("::")[-1], k),
+                           "a per-element closure advances the captured bucket cursor at most once per edge (`if`, not `while`): a source without edges makes it "
+                           "lag and the following edges are attributed to the wrong source", "%s:%d" % (b.file, b.line_of_block(bi)))
+    ctx.instance(rid, "catch-up cursors found in the CSR code: %d" % n)
